@@ -63,3 +63,59 @@ Definition diff_dt (a b : Z) : Q := inject_Z (a - b) / inject_Z ns_per_s.
 (* dt.with_time_zone(tz) *)
 Definition zoned : Type := (Z * string)%type.
 Definition tz_convert (d : zoned) (zone : string) : zoned := (fst d, zone).
+
+(* the VM operations on zoned values: Zoned::checked_add / checked_sub keep the zone of
+   the left operand, Zoned::since only looks at the instants *)
+Definition zadd (d : zoned) (q : Q) : res zoned :=
+  match add_dt (fst d) q with Ok t => Ok (t, snd d) | Err e => Err e end.
+Definition zsub (d : zoned) (q : Q) : res zoned :=
+  match sub_dt (fst d) q with Ok t => Ok (t, snd d) | Err e => Err e end.
+Definition zdiff (a b : zoned) : Q := diff_dt (fst a) (fst b).
+Definition res_map {A B} (f : A -> B) (r : res A) : res B :=
+  match r with Ok a => Ok (f a) | Err e => Err e end.
+
+(* ------------------------------------------------------------------------------
+   The same duration split with the f64 arithmetic of vm.rs made explicit
+   (executable refinement used by the correspondence check; SpecFloat only, no
+   primitive floats, no axioms).  The duration is the f64 (-1)^s * m * 2^e.
+     seconds_f64.to_i64()                          trunc, exact
+     seconds_f64.fract()                           exact in f64
+     (fract * 1_000_000_000f64)                    ONE rounding to nearest-even
+     .round() as i64                               half away from zero
+   `duration_split` above rounds the exact product instead; the two differ by at
+   most one nanosecond, in the rare cases where the f64 product crosses a .5. *)
+From Coq Require Import SpecFloat.
+
+Definition f64_value (s : bool) (m : positive) (e : Z) : Q :=
+  let v := if 0 <=? e then inject_Z (Zpos m * 2 ^ e) else Zpos m # (Z.to_pos (2 ^ (- e))) in
+  if s then - v else v.
+
+(* magnitude of round(fract * 1e9) *)
+Definition f64_fract_nanos (m : positive) (e : Z) : Z :=
+  if 0 <=? e then 0 else
+  let fr := (Zpos m) mod (2 ^ (- e)) in                       (* fract = fr * 2^e, exact *)
+  match binary_normalize 53 1024 (fr * 1000000000) e false with  (* RNE of the exact product *)
+  | S754_finite _ m2 e2 =>
+      if 0 <=? e2 then Zpos m2 * 2 ^ e2
+      else let d := 2 ^ (- e2) in
+           let q := Zpos m2 / d in let r := Zpos m2 mod d in
+           if d <=? 2 * r then q + 1 else q                    (* round half away from zero *)
+  | _ => 0
+  end.
+
+Definition duration_split_f64 (s : bool) (m : positive) (e : Z) : res (Z * Z) :=
+  let secs := qtrunc (f64_value s m e) in
+  if (Z.abs secs >? i64_max) then Err DurationOutOfRange
+  else if (Z.abs secs >? span_sec_max) then Err DurationOutOfRange
+  else let n := f64_fract_nanos m e in Ok (secs, if s then - n else n).
+
+Definition add_dt_f64 (t : Z) (s : bool) (m : positive) (e : Z) : res Z :=
+  match duration_split_f64 s m e with
+  | Err er => Err er
+  | Ok sn => let t' := t + span_ns sn in if in_range t' then Ok t' else Err DateTimeOutOfRange
+  end.
+Definition sub_dt_f64 (t : Z) (s : bool) (m : positive) (e : Z) : res Z :=
+  match duration_split_f64 s m e with
+  | Err er => Err er
+  | Ok sn => let t' := t - span_ns sn in if in_range t' then Ok t' else Err DateTimeOutOfRange
+  end.
